@@ -51,9 +51,9 @@ CHECKS["C01"] = dict(
     engine="tlc-gomachine+llgo",
     technique="TLA+ abstract machine for core Go (GoMachine) interpreted by TLC predicts output and termination of seeded programs; llgo-compiled programs at O0 and O2* must match; reference toolchain self-validates the machine",
     text="Programs from a typed grammar over the core language (branches, labelled loops, switch/fallthrough, closures incl. per-iteration loop variables, "
-         "structs/embedding/methods/method values/interfaces, arrays, pointers, tuple assignment, multiple results, every integer-range and array-range form) "
+         "structs/embedding/methods/method values/interfaces, generic functions and types, arrays, pointers, tuple assignment, multiple results, integer-, array- and function-range loops) "
          "are executed by the TLA+ machine and by llgo-compiled code in each configuration; printed lines and termination must agree.",
-    note="the grammar is a subset of Go (no generics, range-over-func, floats); the machine and the Python lowering are self-validated against the reference toolchain on every case; O2 = reduced pipeline O2*; package split not exercised yet",
+    note="the grammar is a subset of Go (generics: functions and a generic struct with methods at int and struct instantiations; range-over-func with break/continue/return/defer in the body; no floats); the machine and the Python lowering are self-validated against the reference toolchain on every case; O2 = reduced pipeline O2*; package split not exercised yet",
     design="5 C01")
 CHECKS["C03"] = dict(
     engine="tlc-tables+gomachine+llgo",
@@ -153,6 +153,17 @@ CHECKS["C08"] = dict(
     text="11k type terms x 5 targets in quick (90k in thorough): scalars of every width, arrays incl. length 0, nested structs with padding and zero-size tails, func/closure, aliases, named types, interface/string/slice/map/chan, map slot and bucket sizes. a = b = c is demanded everywhere; llgo-compiled host programs confirm Sizeof/Offsetof constants, address differences and reflect sizes.",
     note="32-bit profiles are fitted, only disagreement among llgo's own computations is judged there; 16 known finding keys (zero-size tail, arm/wasm 64-bit alignment) are listed",
     design="5 C08")
+
+CHECKS["C13"] = dict(
+    engine="tlc-histories+llgo-build",
+    technique="TLA+ BuildCache (inputs with content and stat, packages reading inputs, cache keyed by an abstract key; Fresh / NoopStable / KeyFunctional / Repro) as judge; TLC enumerates canonical edit/build histories (BuildCases) and computes the expected markers (BuildReplay); each history is replayed with the real `llgo build` and a persistent private cache; CacheKey/CacheProbe (layer B: collect.go's manifest) model-checked for missing inputs",
+    text="Histories over 13 inputs of a generated module main->p1->p2 (Go source, embedded file, LLGoFiles C file and -X value per package; build tag, -O level, LLGO_TRACE) "
+         "x {edit, edit keeping size+mtime, touch} with builds, no-op rebuilds and cache clears: a deterministic cover of every single change plus a seeded sample "
+         "(17 histories / ~70 real builds in quick; 200+ histories incl. TLC-simulated length-10 ones with a clean differential build after every step in thorough). "
+         "After every build the program's markers must equal those of the current inputs (Fresh); two clean builds into empty caches must give byte-identical archive members "
+         "and manifests (Repro); equal keys across unrelated programs must hold equal code.",
+    note="ABI mode and the LLGO_* variables without printable effect are not exercised; -X goes through build.Config (the command line ignores -ldflags); Repro compares member contents, not temporary member names",
+    design="5 C13")
 
 NOT_YET = {}
 
